@@ -90,7 +90,7 @@ def check(case):
         res = must(_call(gen, case, s, with_order), "%s seed %d" % (ctx0, s))
         what = "%s, random_state=%d" % (ctx0, s)
         if with_order:
-            if not (isinstance(res, tuple) and len(res) == 2):
+            if not (isinstance(res, (tuple, list)) and len(res) == 2):
                 raise Violation("no_ordering_returned", "%s with return_ordering=True returned %s" % (what, type(res).__name__))
             W, order = res
         else:
